@@ -198,6 +198,7 @@ func DistMatrix(al align.Alignment, weights []float64, model DistModel, range1Mi
 	for cpu := 0; cpu < cpus; cpu++ {
 		wg.Add(1)
 		go func() {
+			defer wg.Done()
 			for sp := range distchan {
 				if sp.i == sp.j {
 					outmatrix[sp.i][sp.i] = 0
@@ -215,7 +216,6 @@ func DistMatrix(al align.Alignment, weights []float64, model DistModel, range1Mi
 					mux.Unlock()
 				}
 			}
-			wg.Done()
 		}()
 	}
 	wg.Wait()
